@@ -36,7 +36,7 @@ POSTULATES = ["DI", "REF", "SUPRA", "LLE", "RW", "AND", "OR", "CM", "CUT", "RM",
 
 
 def budget(tier):
-    return {"examples": 220 if tier == "quick" else 3000, "hard_examples": 128 if tier == "quick" else 1600,
+    return {"examples": 192 if tier == "quick" else 3000, "hard_examples": 192 if tier == "quick" else 2400,
             "soft_seconds": 300 if tier == "quick" else 3000}
 
 
